@@ -283,12 +283,14 @@ func classify(enc *base64.Encoding, old, new string) string {
 // ---------- one case ----------
 
 type result struct {
+	Attempts string `json:"-"`
 	env.Unpacked
 	PayloadID int `json:"payload_id"` // id of the payload obtained, -1 = none of the known ones
 }
 
 func (p *pool) unpack(c Case, h HEnv, b []byte) result {
 	party := p.w.Parties[c.Party]
+	party.Rec.Unwraps = nil
 
 	u := env.Fence(func() env.Unpacked {
 		if c.Via == "packager" {
@@ -317,7 +319,14 @@ func (p *pool) unpack(c Case, h HEnv, b []byte) result {
 		return p.w.Project(pp.Unpack(b))
 	})
 
-	r := result{Unpacked: u, PayloadID: -1}
+	r := result{Unpacked: u, PayloadID: -1, Attempts: "None"}
+	// the UnwrapKey calls are compared with the model only where the symbolic description of the envelope is exact:
+	// a changed protected STRING is described as "another serialization variant" whatever it decodes to (enough for the
+	// outcome, not for the stage at which the real code gives up)
+	coarse := c.Mut.Kind == "prot" || c.Mut.Kind == "truncate" || (c.Mut.Kind == "flip" && c.Mut.Field == "protected")
+	if !h.legacy() && u.Out != "panic" && !coarse {
+		r.Attempts = party.Rec.CoqAttempts()
+	}
 
 	if u.Out == "ok" {
 		for _, id := range []int{c.H1.Payload, c.H2.Payload, forged} {
@@ -460,8 +469,8 @@ func (p *pool) run(kind string, c Case, tr *hx.Trace) {
 		up = "(Some " + coqPacker(c.H1.Packer) + ")"
 	}
 
-	rec.Coq = fmt.Sprintf("{| c_h1 := %s; c_h2 := %s; c_E := (fun w1 w2 => %s); c_up := %s; c_party := %s; c_obs := %s |}",
-		p.coqHEnv(c.H1, 100000), p.coqHEnv(c.H2, 100100), coqE, up, hx.CoqNList(p.partyKeys(c.Party)), cu)
+	rec.Coq = fmt.Sprintf("{| c_h1 := %s; c_h2 := %s; c_E := (fun w1 w2 => %s); c_up := %s; c_party := %s; c_att := %s; c_obs := %s |}",
+		p.coqHEnv(c.H1, 100000), p.coqHEnv(c.H2, 100100), coqE, up, hx.CoqNList(p.partyKeys(c.Party)), r.Attempts, cu)
 	rec.Observed = r
 	rec.Class = fmt.Sprintf("%s/%s/%s/n=%d/%s/%s/%d/%d/%s/p%d/%s", c.H1.Packer, c.H1.kt(), c.H1.Enc, len(c.H1.Rcpts), c.Mut.Kind,
 		c.Mut.Field, c.Mut.Idx, c.Mut.Pos, c.Mut.Arg, c.Party, r.Out)
